@@ -4,7 +4,7 @@ CONSTANTS
   Backs = {"b1", "b2", "b3"}
   BackSeq <- MCBackSeq
   MethodExcluded = FALSE
-  PurgeEvictsLive = FALSE
+  PurgeEvictsLive = TRUE
   MaxOps = 8
 VIEW PropView
 INVARIANTS Sticky PinsAreAnswered
